@@ -20,15 +20,21 @@ def check_C02(rep, known):
     scen_job(rep, 'ScenShoot', 'C02', [r'C02\.', r'build', r'varmap'], known)
     # degrees 1..5 of both schemes through node-independent special probes
     scen_job(rep, 'ScenDCs', 'C02s', [r'C02\.'], known, parts=4, replay=('dcs', 'replay'))
+    # collocation rows of a sub-stage after an edit that follows a first transcription (multi-stage histories of the C12 family)
+    recs, st = tlc.generate('ScenStages', 'ScenStages.cfg', 'C12', rep.tier, rep.seed, parts=16)
+    recs = [r for r in recs if r['sc']['reset'] and r['sc']['kinds'][0] == 'D']
+    outs = engine.pool_map('stages', 'replay', recs)
+    engine.process_results(rep, recs, outs, [r'C12\.a:dyn'], known)
 
 
 def check_C04(rep, known):
     scen_job(rep, 'ScenShoot', 'C04', [r'C04\.', r'build', r'varmap'], known)
     # constraints declared on a sub-stage after a first transcription (multi-stage histories of the C12 family)
     recs, st = tlc.generate('ScenStages', 'ScenStages.cfg', 'C12', rep.tier, rep.seed, parts=16)
-    recs = [r for r in recs if r['sc']['reset']]
+    # ... and point constraints that couple two stages, declared on either of them instead of on the parent
+    recs = [r for r in recs if r['sc']['reset'] or r['sc']['pon'] != 'parent']
     outs = engine.pool_map('stages', 'replay', recs)
-    engine.process_results(rep, recs, outs, [r'C12\.a:(rows|extra)'], known)
+    engine.process_results(rep, recs, outs, [r'C12\.a:(rows|extra|parent|interference)'], known)
 
 
 def mc_job(rep, module, cfg, expect_violation=None, workers=16, env=None):
@@ -67,10 +73,12 @@ def check_C08(rep, known):
 
 
 def check_C06(rep, known):
-    scen_job(rep, 'ScenShoot', 'C06', [r'C06\.', r'build', r'varmap'], known)
+    # (the family's model has explicit time in the dynamics: the gap rows C01.a tell which time grid the *system* sees)
+    scen_job(rep, 'ScenShoot', 'C06', [r'C06\.', r'C01\.a', r'build', r'varmap'], known)
     # DensityGrid: observed node positions validated by TLC against the declarative equidistribution
     import density
-    pairs = [('1+3t2', '1+t'), ('3-2t', '1+t'), ('1+4t3', '1+3t2')]
+    # ('E<multiplier>-<edge_frac>': DenseEdgesGrid; two of them with the same N one after the other in one process)
+    pairs = [('1+3t2', '1+t'), ('3-2t', '1+t'), ('1+4t3', '1+3t2'), ('E10-0.1', 'E3-0.2'), ('E2-0.25', 'E10-0.1')]
     obs, verdicts, st = density.run(pairs, [2, 3, 5] if rep.tier == 'quick' else [1, 2, 3, 4, 5, 6, 8])
     st['module'] = 'TraceDensity'; rep.add_tlc(st)
     for o in obs:
@@ -95,6 +103,11 @@ def check_C05(rep, known):
     outs = engine.pool_map('flow', 'replay', recs)
     engine.process_results(rep, recs, outs, [r'C03\.b'], known)
     scen_job(rep, 'ScenDCs', 'C02s', [r'C05\.'], known, parts=4, replay=('dcs', 'replay'))
+    # objective terms added to a sub-stage after a first transcription (multi-stage histories of the C12 family)
+    recs, st = tlc.generate('ScenStages', 'ScenStages.cfg', 'C12', rep.tier, rep.seed, parts=16)
+    recs = [r for r in recs if r['sc']['reset']]
+    outs = engine.pool_map('stages', 'replay', recs)
+    engine.process_results(rep, recs, outs, [r'C12\.c:f'], known)
 
 
 
@@ -303,6 +316,11 @@ def check_C13(rep, known):
 def check_C09(rep, known):
     life_job(rep, [r'C09\.'], known)
     scen_job(rep, 'ScenShoot', 'C09', [r'C09\.', r'build', r'varmap'], known)
+    # stages cloned from one template, each with its own parameter values (C12 family): every clone is the OCP with *its* values written in
+    recs, st = tlc.generate('ScenStages', 'ScenStages.cfg', 'C12', rep.tier, rep.seed, parts=16)
+    recs = [r for r in recs if r['sc']['clone'] and len(r['sc']['kinds']) >= 2 and r['decl']['stages'][0]['params']]
+    outs = engine.pool_map('stages', 'replay', recs)
+    engine.process_results(rep, recs, outs, [r'C12\.a:(dyn|rows)', r'C12\.c:f'], known)
 
 
 def check_C10(rep, known):
